@@ -697,4 +697,438 @@ theorem LInv.pop {x : Acc} (h : LInv x) (p : Peer) (id : Id) (hin : id ∈ x.pen
     · exact g3 i h1
     · exact hne ⟨h2, h3⟩
 
+/-- worker `w` hands its task back (StartTask answered "empty", or FinishTask): it becomes `done`, the
+    topic leaves the active set, its message leaves the mailbox, and the entry of the id (if any) is
+    deleted, or ends Paused / CompletingSend -/
+def Acc.workerDone (x : Acc) (w : Nat) (p : Peer) (id : Id) (v : Option (Peer × RState × Option Nat))
+    (starts' fins' : List Nat) : Acc :=
+  { x with ent := fupd x.ent id v, act := fupd x.act p ((x.act p).filter (· != id)),
+           wk := setK x.wk w .done, starts := starts', fins := fins' }
+
+theorem LInv.workerDone {x : Acc} (h : LInv x) (w : Nat) (p : Peer) (id : Id) (k0 : WKind)
+    (hw : x.wk[w]? = some (p, id, k0))
+    (starts' fins' : List Nat)
+    (hs : (k0 = .waitStart ∧ x.starts = w :: starts' ∧ fins' = x.fins) ∨
+          (k0 = .waitFinish ∧ x.fins = w :: fins' ∧ starts' = x.starts))
+    (v : Option (Peer × RState × Option Nat))
+    (hv : v = none ∨ ∃ st' t, v = some (p, st', t) ∧ (st' = .paused ∨ st' = .completing) ∧ x.ent id ≠ none)
+    (hun : x.punp = none) :
+    LInv (x.workerDone w p id v starts' fins') := by
+  have hk0d : k0 ≠ .done := by rcases hs with ⟨rfl, _⟩ | ⟨rfl, _⟩ <;> simp
+  have hlw : x.liveW w p id := ⟨k0, hw, hk0d⟩
+  have huniq : ∀ i, x.liveW i p id → i = w := fun i hi => h.liveUniq i w p id hi hlw
+  have hl : ∀ i q a, (x.workerDone w p id v starts' fins').liveW i q a ↔ (x.liveW i q a ∧ i ≠ w) := by
+    intro i q a
+    show ({ x with wk := setK x.wk w .done } : Acc).liveW i q a ↔ _
+    rw [liveW_setK rfl]
+    by_cases hi : i = w
+    · subst hi; simp
+    · simp [hi]
+  have hkind : ∀ i, (x.workerDone w p id v starts' fins').kindAt i = if i = w then some .done else x.kindAt i := by
+    intro i
+    show ({ x with wk := setK x.wk w .done } : Acc).kindAt i = _
+    rw [kindAt_setK rfl]
+    by_cases hi : i = w
+    · subst hi; simp [hw]
+    · simp [hi]
+  have hkw : x.kindAt w = some k0 := by simp [kindAt, hw]
+  have hact : ∀ q a, a ∈ (x.workerDone w p id v starts' fins').act q ↔ (a ∈ x.act q ∧ ¬ (q = p ∧ a = id)) := by
+    intro q a
+    show a ∈ fupd x.act p ((x.act p).filter (· != id)) q ↔ _
+    by_cases hq : q = p
+    · subst hq; simp [fupd_same, mem_filter_ne]
+    · rw [fupd_other _ _ _ hq]; simp [hq]
+  -- liveness of workers for another (peer, id) is untouched
+  have hlo : ∀ i q a, ¬ (q = p ∧ a = id) → ((x.workerDone w p id v starts' fins').liveW i q a ↔ x.liveW i q a) := by
+    intro i q a hne
+    rw [hl]
+    constructor
+    · exact fun h => h.1
+    · intro hli
+      refine ⟨hli, ?_⟩
+      rintro rfl
+      obtain ⟨k, hk, _⟩ := hli
+      rw [hw] at hk
+      simp only [Option.some.injEq, Prod.mk.injEq] at hk
+      exact hne ⟨hk.1.symm, hk.2.1.symm⟩
+  have hko : ∀ i, i ≠ w → (x.workerDone w p id v starts' fins').kindAt i = x.kindAt i := by
+    intro i hi; rw [hkind]; simp [hi]
+  refine ⟨?_, ?_, ?_, ?_, ?_, ?_, ?_, ?_, ?_, ?_, ?_, h.newsIds, ?_, ?_⟩
+  · intro q a ha hb; exact h.disj q a ha ((hact q a).1 hb).1
+  · -- actLive
+    intro q a
+    rw [hact, h.actLive]
+    constructor
+    · rintro ⟨⟨i, hi⟩, hne⟩; exact ⟨i, (hlo i q a hne).2 hi⟩
+    · rintro ⟨i, hi⟩
+      obtain ⟨h1, h2⟩ := (hl i q a).1 hi
+      refine ⟨⟨i, h1⟩, ?_⟩
+      rintro ⟨rfl, rfl⟩
+      exact h2 (huniq i h1)
+  · intro i j q a h1 h2
+    exact h.liveUniq i j q a ((hl _ _ _).1 h1).1 ((hl _ _ _).1 h2).1
+  · -- startsIff
+    intro i
+    rw [hkind]
+    show i ∈ starts' ↔ _
+    rcases hs with ⟨rfl, hst, _⟩ | ⟨rfl, _, hst⟩
+    · have hnd := h.startsNodup
+      rw [hst, List.nodup_cons] at hnd
+      by_cases hi : i = w
+      · subst hi; simp [hnd.1]
+      · simp only [hi, if_false]
+        rw [← h.startsIff, hst]
+        simp [hi]
+    · rw [hst]
+      by_cases hi : i = w
+      · subst hi
+        simp only [if_true]
+        constructor
+        · intro hm
+          have := (h.startsIff _).1 hm
+          rw [hkw] at this; cases this
+        · intro e; cases e
+      · simp only [hi, if_false]; exact h.startsIff i
+  · show starts'.Nodup
+    rcases hs with ⟨_, hst, _⟩ | ⟨_, _, hst⟩
+    · have := h.startsNodup; rw [hst, List.nodup_cons] at this; exact this.2
+    · rw [hst]; exact h.startsNodup
+  · -- finsIff
+    intro i
+    rw [hkind]
+    show i ∈ fins' ↔ _
+    rcases hs with ⟨rfl, _, hst⟩ | ⟨rfl, hst, _⟩
+    · rw [hst]
+      by_cases hi : i = w
+      · subst hi
+        simp only [if_true]
+        constructor
+        · intro hm
+          have := (h.finsIff _).1 hm
+          rw [hkw] at this; cases this
+        · intro e; cases e
+      · simp only [hi, if_false]; exact h.finsIff i
+    · have hnd := h.finsNodup
+      rw [hst, List.nodup_cons] at hnd
+      by_cases hi : i = w
+      · subst hi; simp [hnd.1]
+      · simp only [hi, if_false]
+        rw [← h.finsIff, hst]
+        simp [hi]
+  · show fins'.Nodup
+    rcases hs with ⟨_, _, hst⟩ | ⟨_, hst, _⟩
+    · rw [hst]; exact h.finsNodup
+    · have := h.finsNodup; rw [hst, List.nodup_cons] at this; exact this.2
+  · -- own
+    intro i q a hli e he
+    have hli' := ((hl i q a).1 hli).1
+    by_cases hid : a = id
+    · subst hid
+      have he' : v = some e := by simpa [Acc.workerDone, fupd] using he
+      rcases hv with rfl | ⟨st', t, rfl, _, hne⟩
+      · cases he'
+      · cases he'
+        -- some old entry with this id exists, and worker i is live for it
+        cases hx : x.ent a with
+        | none => exact absurd hx hne
+        | some e0 =>
+          have h1 := h.own i q a hli' e0 hx
+          have h2 := h.own w p a hlw e0 hx
+          exact h2.symm.trans h1 |>.symm ▸ rfl
+    · exact h.own i q a hli' e (by simpa [Acc.workerDone, fupd, hid] using he)
+  · -- ownP
+    intro q a ha e he
+    by_cases hid : a = id
+    · subst hid
+      have he' : v = some e := by simpa [Acc.workerDone, fupd] using he
+      rcases hv with rfl | ⟨st', t, rfl, _, hne⟩
+      · cases he'
+      · cases he'
+        cases hx : x.ent a with
+        | none => exact absurd hx hne
+        | some e0 =>
+          have h1 := h.ownP q a ha e0 hx
+          have h2 := h.own w p a hlw e0 hx
+          exact h2.symm.trans h1 |>.symm ▸ rfl
+    · exact h.ownP q a ha e (by simpa [Acc.workerDone, fupd, hid] using he)
+  · -- entry
+    intro a q st t he
+    by_cases hid : a = id
+    · subst hid
+      have he' : v = some (q, st, t) := by simpa [Acc.workerDone, fupd] using he
+      rcases hv with rfl | ⟨st', t', rfl, hst', _⟩
+      · cases he'
+      · cases he'
+        -- no live worker for (p, a) is left
+        have hnl : ∀ i, ¬ (x.workerDone w p a (some (p, st, t)) starts' fins').liveW i p a := by
+          intro i hi
+          obtain ⟨h1, h2⟩ := (hl i p a).1 hi
+          exact h2 (huniq i h1)
+        have hnp : a ∉ x.pend p := by
+          intro hm
+          exact h.disj p a hm ((h.actLive p a).2 ⟨w, hlw⟩)
+        rcases hst' with rfl | rfl
+        · exact ⟨hnp, hnl⟩
+        · exact ⟨hnp, fun i hi => absurd hi (hnl i)⟩
+    · have he' : x.ent a = some (q, st, t) := by simpa [Acc.workerDone, fupd, hid] using he
+      have hE := h.entry a q st t he'
+      have hne : ¬ (q = p ∧ a = id) := fun hh => hid hh.2
+      have hlq := fun i => hlo i q a hne
+      have hkl : ∀ i, x.liveW i q a → i ≠ w := by
+        rintro i hli rfl
+        obtain ⟨k, hk, _⟩ := hli
+        rw [hw] at hk
+        simp only [Option.some.injEq, Prod.mk.injEq] at hk
+        exact hne ⟨hk.1.symm, hk.2.1.symm⟩
+      cases st with
+      | queued =>
+        rcases hE with ⟨h1, h2⟩ | ⟨h1, i, h2, h3⟩ | ⟨h1, h2, h3⟩
+        · left; exact ⟨h1, fun i hli => h2 i ((hlq i).1 hli)⟩
+        · right; left
+          exact ⟨h1, i, (hlq i).2 h2, by rw [hko i (hkl i h2)]; exact h3⟩
+        · rw [hun] at h1; cases h1
+      | running =>
+        obtain ⟨h1, i, h2, h3, h4⟩ := hE
+        exact ⟨h1, i, (hlq i).2 h2, h3, by rw [hko i (hkl i h2)]; exact h4⟩
+      | paused => exact ⟨hE.1, fun i hli => hE.2 i ((hlq i).1 hli)⟩
+      | completing =>
+        refine ⟨hE.1, fun i hli => ?_⟩
+        have h2 := (hlq i).1 hli
+        rw [hko i (hkl i h2)]; exact hE.2 i h2
+  · -- newsClean
+    intro k hk
+    obtain ⟨g1, g2, g3⟩ := h.newsClean k hk
+    have hne : k.2 ≠ id := fun e => g3 w p (e ▸ hlw)
+    refine ⟨?_, fun q => ⟨(g2 q).1, fun hm => (g2 q).2 ((hact q _).1 hm).1⟩, fun i q hli => g3 i q ((hl _ _ _).1 hli).1⟩
+    show fupd x.ent id v k.2 = none
+    rw [fupd_other _ _ _ hne]; exact g1
+  · intro k hk
+    obtain ⟨⟨g1, g2, g3⟩, h2⟩ := h.pnewClean k hk
+    have hne : k.2 ≠ id := fun e => g3 w p (e ▸ hlw)
+    refine ⟨⟨?_, fun q => ⟨(g2 q).1, fun hm => (g2 q).2 ((hact q _).1 hm).1⟩,
+      fun i q hli => g3 i q ((hl _ _ _).1 hli).1⟩, h2⟩
+    show fupd x.ent id v k.2 = none
+    rw [fupd_other _ _ _ hne]; exact g1
+  · intro a hu
+    have : x.punp = some a := hu
+    rw [hun] at this; cases this
+
+-- ------------------------------------------------------------------ parked newRequest
+theorem LInv.parkNew {x : Acc} (h : LInv x) (k : Peer × Id) (rest : List (Peer × Id)) (hn : x.news = k :: rest)
+    (hun : x.punp = none) : LInv { x with news := rest, pnew := some k } := by
+  have h1 := h.dropNews k rest hn
+  refine ⟨h1.disj, h1.actLive, h1.liveUniq, h1.startsIff, h1.startsNodup, h1.finsIff, h1.finsNodup, h1.own, h1.ownP,
+    h1.entry, h1.newsClean, h1.newsIds, ?_, ?_⟩
+  · intro k' hk'
+    have : k = k' := by simpa using hk'
+    subst this
+    obtain ⟨hc, hnm⟩ := h.headNews (p := k.1) (id := k.2) (rest := rest) hn
+    exact ⟨hc, hnm⟩
+  · intro a hu
+    have : x.punp = some a := hu
+    rw [hun] at this; cases this
+
+theorem LInv.clearPnew {x : Acc} (h : LInv x) : LInv { x with pnew := none } := by
+  refine ⟨h.disj, h.actLive, h.liveUniq, h.startsIff, h.startsNodup, h.finsIff, h.finsNodup, h.own, h.ownP,
+    h.entry, h.newsClean, h.newsIds, ?_, ?_⟩
+  · intro k hk; cases hk
+  · intro a hu; exact ⟨(h.punpOK a hu).1, rfl⟩
+
+-- ------------------------------------------------------------------ an entry changes its state
+/-- the entry of `id` gets another state, and `id` may enter / leave the pending topics of its peer or
+    become the parked unpause; no worker changes -/
+theorem LInv.setEntry {x : Acc} (h : LInv x) (p : Peer) (id : Id) (st : RState) (t : Option Nat)
+    (st' : RState) (t' : Option Nat) (he : x.ent id = some (p, st, t))
+    (pend' : Peer → List Id) (inP : Prop)
+    (hpend : ∀ q a, a ∈ pend' q ↔ ((a ∈ x.pend q ∧ ¬ (q = p ∧ a = id)) ∨ (q = p ∧ a = id ∧ inP)))
+    (hact : inP → id ∉ x.act p)
+    (punp' : Option Id) (hu0 : x.punp = none ∨ x.punp = some id)
+    (hu1 : punp' = none ∨ (punp' = some id ∧ st' = .queued ∧ ¬ inP ∧ (∀ i, ¬ x.liveW i p id) ∧ x.pnew = none))
+    (hE : ({ x with ent := fupd x.ent id (some (p, st', t')), pend := pend', punp := punp' } : Acc).EntryOK id p st' t') :
+    LInv { x with ent := fupd x.ent id (some (p, st', t')), pend := pend', punp := punp' } := by
+  have hpo : ∀ q a, a ≠ id → (a ∈ pend' q ↔ a ∈ x.pend q) := by
+    intro q a hne
+    rw [hpend]
+    constructor
+    · rintro (⟨h1, _⟩ | ⟨_, h2, _⟩)
+      · exact h1
+      · exact absurd h2 hne
+    · intro h1; exact Or.inl ⟨h1, fun hh => hne hh.2⟩
+  have hcl : ∀ a, x.Clean a →
+      ({ x with ent := fupd x.ent id (some (p, st', t')), pend := pend', punp := punp' } : Acc).Clean a := by
+    intro a ⟨g1, g2, g3⟩
+    have hne : a ≠ id := by rintro rfl; rw [he] at g1; cases g1
+    refine ⟨?_, fun q => ⟨fun hm => (g2 q).1 ((hpo q a hne).1 hm), (g2 q).2⟩, g3⟩
+    show fupd x.ent id _ a = none
+    rw [fupd_other _ _ _ hne]; exact g1
+  refine ⟨?_, h.actLive, h.liveUniq, h.startsIff, h.startsNodup, h.finsIff, h.finsNodup, ?_, ?_, ?_, ?_,
+    h.newsIds, ?_, ?_⟩
+  · intro q a ha
+    rcases (hpend q a).1 ha with ⟨h1, _⟩ | ⟨rfl, rfl, h3⟩
+    · exact h.disj q a h1
+    · exact hact h3
+  · intro i q a hl e hee
+    by_cases hid : a = id
+    · subst hid
+      have : e = (p, st', t') := by simpa [fupd] using hee.symm
+      subst this
+      exact h.own i q a hl (p, st, t) he
+    · exact h.own i q a hl e (by simpa [fupd, hid] using hee)
+  · intro q a ha e hee
+    by_cases hid : a = id
+    · subst hid
+      have : e = (p, st', t') := by simpa [fupd] using hee.symm
+      subst this
+      rcases (hpend q a).1 ha with ⟨h1, _⟩ | ⟨rfl, _, _⟩
+      · exact h.ownP q a h1 (p, st, t) he
+      · rfl
+    · exact h.ownP q a ((hpo q a hid).1 ha) e (by simpa [fupd, hid] using hee)
+  · intro a q s0 t0 hee
+    by_cases hid : a = id
+    · subst hid
+      have : (q, s0, t0) = (p, st', t') := by simpa [fupd] using hee.symm
+      cases this
+      exact hE
+    · have hee' : x.ent a = some (q, s0, t0) := by simpa [fupd, hid] using hee
+      refine EntryOK.congr' (x := x)
+        (y := { x with ent := fupd x.ent id (some (p, st', t')), pend := pend', punp := punp' })
+        (hpo q a hid) rfl ?_ (h.entry a q s0 t0 hee')
+      show punp' = some a ↔ x.punp = some a
+      constructor
+      · intro e1
+        rcases hu1 with e2 | ⟨e2, _⟩
+        · rw [e2] at e1; cases e1
+        · rw [e2] at e1; exact absurd (Option.some.inj e1).symm hid
+      · intro e1
+        rcases hu0 with e2 | e2
+        · rw [e2] at e1; cases e1
+        · rw [e2] at e1; exact absurd (Option.some.inj e1).symm hid
+  · intro k hk; exact hcl _ (h.newsClean k hk)
+  · intro k hk
+    obtain ⟨g1, g2⟩ := h.pnewClean k hk
+    exact ⟨hcl _ g1, g2⟩
+  · intro a hu
+    have hu' : punp' = some a := hu
+    rcases hu1 with e2 | ⟨e2, hq, hnp, hnl, hpn⟩
+    · rw [e2] at hu'; cases hu'
+    · rw [e2] at hu'
+      have : id = a := Option.some.inj hu'
+      subst this
+      refine ⟨⟨p, t', ?_, ?_, hnl⟩, hpn⟩
+      · show fupd x.ent id _ id = _
+        rw [fupd_same, hq]
+      · intro hm
+        rcases (hpend p id).1 hm with ⟨_, h2⟩ | ⟨_, _, h3⟩
+        · exact h2 ⟨rfl, rfl⟩
+        · exact hnp h3
+
+-- ------------------------------------------------------------------ StartTask answered with a response
+/-- StartTask handled for a Queued response: Running, task := this worker, worker `mid` -/
+def Acc.startRun (x : Acc) (w : Nat) (p : Peer) (id : Id) (rest : List Nat) : Acc :=
+  { x with ent := fupd x.ent id (some (p, .running, some w)), wk := setK x.wk w .mid, starts := rest }
+
+theorem LInv.startRun {x : Acc} (h : LInv x) (w : Nat) (p : Peer) (id : Id) (rest : List Nat)
+    (hw : x.wk[w]? = some (p, id, .waitStart)) (hs : x.starts = w :: rest)
+    (q : Peer) (st : RState) (t : Option Nat) (he : x.ent id = some (q, st, t)) (hst : st ≠ .completing)
+    (hun : x.punp = none) :
+    LInv (x.startRun w p id rest) := by
+  have hlw : x.liveW w p id := ⟨.waitStart, hw, by simp⟩
+  have hkw : x.kindAt w = some .waitStart := by simp [kindAt, hw]
+  have hqp : q = p := h.own w p id hlw _ he
+  subst hqp
+  have huniq : ∀ i, x.liveW i q id → i = w := fun i hi => h.liveUniq i w q id hi hlw
+  -- the response is Queued and its task is the popped one
+  have hE := h.entry id q st t he
+  have hnp : id ∉ x.pend q := fun hm => h.disj q id hm ((h.actLive q id).2 ⟨w, hlw⟩)
+  obtain ⟨hl, hk⟩ := setK_live (x := x) (k := .mid) hw (by simp) (by simp)
+  have hl' : ∀ i q a, (x.startRun w q id rest).liveW i q a ↔ x.liveW i q a := fun i q a => hl i q a
+  have hk' : ∀ i, (x.startRun w q id rest).kindAt i = if i = w then some .mid else x.kindAt i := hk
+  have hnd := h.startsNodup
+  rw [hs, List.nodup_cons] at hnd
+  -- workers of other (peer, id) are not `w`
+  have hkl : ∀ i q' a, x.liveW i q' a → ¬ (q' = q ∧ a = id) → i ≠ w := by
+    rintro i q' a hli hne rfl
+    obtain ⟨k, hk1, _⟩ := hli
+    rw [hw] at hk1
+    simp only [Option.some.injEq, Prod.mk.injEq] at hk1
+    exact hne ⟨hk1.1.symm, hk1.2.1.symm⟩
+  refine ⟨h.disj, ?_, ?_, ?_, hnd.2, ?_, h.finsNodup, ?_, ?_, ?_, ?_, h.newsIds, ?_, ?_⟩
+  · intro q' a
+    show a ∈ x.act q' ↔ _
+    rw [h.actLive]; exact exists_congr fun i => (hl' i q' a).symm
+  · intro i j q' a h1 h2; exact h.liveUniq i j q' a ((hl' _ _ _).1 h1) ((hl' _ _ _).1 h2)
+  · intro i
+    rw [hk']
+    show i ∈ rest ↔ _
+    by_cases hi : i = w
+    · subst hi; simp [hnd.1]
+    · simp only [hi, if_false]; rw [← h.startsIff, hs]; simp [hi]
+  · intro i
+    rw [hk']
+    by_cases hi : i = w
+    · subst hi
+      simp only [if_true]
+      constructor
+      · intro hm
+        have := (h.finsIff _).1 hm
+        rw [hkw] at this; cases this
+      · intro e; cases e
+    · simp only [hi, if_false]; exact h.finsIff i
+  · intro i q' a hli e hee
+    have hli' := (hl' i q' a).1 hli
+    by_cases hid : a = id
+    · subst hid
+      have : e = (q, .running, some w) := by simpa [Acc.startRun, fupd] using hee.symm
+      subst this
+      exact h.own i q' a hli' (q, st, t) he
+    · exact h.own i q' a hli' e (by simpa [Acc.startRun, fupd, hid] using hee)
+  · intro q' a ha e hee
+    by_cases hid : a = id
+    · subst hid
+      have : e = (q, .running, some w) := by simpa [Acc.startRun, fupd] using hee.symm
+      subst this
+      exact h.ownP q' a ha (q, st, t) he
+    · exact h.ownP q' a ha e (by simpa [Acc.startRun, fupd, hid] using hee)
+  · intro a q' s0 t0 hee
+    by_cases hid : a = id
+    · subst hid
+      have : (q', s0, t0) = (q, .running, some w) := by simpa [Acc.startRun, fupd] using hee.symm
+      cases this
+      refine ⟨hnp, w, (hl' w q a).2 hlw, rfl, ?_⟩
+      rw [hk']; simp
+    · have hee' : x.ent a = some (q', s0, t0) := by simpa [Acc.startRun, fupd, hid] using hee
+      have hE' := h.entry a q' s0 t0 hee'
+      have hne : ¬ (q' = q ∧ a = id) := fun hh => hid hh.2
+      have hko : ∀ i, x.liveW i q' a → (x.startRun w q id rest).kindAt i = x.kindAt i := by
+        intro i hli; rw [hk']; simp [hkl i q' a hli hne]
+      cases s0 with
+      | queued =>
+        rcases hE' with ⟨h1, h2⟩ | ⟨h1, i, h2, h3⟩ | ⟨h1, h2, h3⟩
+        · left; exact ⟨h1, fun i hli => h2 i ((hl' i q' a).1 hli)⟩
+        · right; left; exact ⟨h1, i, (hl' i q' a).2 h2, by rw [hko i h2]; exact h3⟩
+        · rw [hun] at h1; cases h1
+      | running =>
+        obtain ⟨h1, i, h2, h3, h4⟩ := hE'
+        exact ⟨h1, i, (hl' i q' a).2 h2, h3, by rw [hko i h2]; exact h4⟩
+      | paused => exact ⟨hE'.1, fun i hli => hE'.2 i ((hl' i q' a).1 hli)⟩
+      | completing =>
+        refine ⟨hE'.1, fun i hli => ?_⟩
+        have h2 := (hl' i q' a).1 hli
+        rw [hko i h2]; exact hE'.2 i h2
+  · intro k hk0
+    obtain ⟨g1, g2, g3⟩ := h.newsClean k hk0
+    have hne : k.2 ≠ id := by intro e; rw [e, he] at g1; cases g1
+    refine ⟨?_, g2, fun i q' hli => g3 i q' ((hl' _ _ _).1 hli)⟩
+    show fupd x.ent id _ k.2 = none
+    rw [fupd_other _ _ _ hne]; exact g1
+  · intro k hk0
+    obtain ⟨⟨g1, g2, g3⟩, g4⟩ := h.pnewClean k hk0
+    have hne : k.2 ≠ id := by intro e; rw [e, he] at g1; cases g1
+    refine ⟨⟨?_, g2, fun i q' hli => g3 i q' ((hl' _ _ _).1 hli)⟩, g4⟩
+    show fupd x.ent id _ k.2 = none
+    rw [fupd_other _ _ _ hne]; exact g1
+  · intro a hu
+    have : x.punp = some a := hu
+    rw [hun] at this; cases this
+
 end GS.RespLife
